@@ -553,6 +553,50 @@ Proof.
   intros o. destruct o; repeat split; try (vm_compute; reflexivity); vm_compute; intros; try discriminate; reflexivity.
 Qed.
 
+(* ================================================================== 3f. edge kinds *)
+Definition kname (k : pkind) : string :=
+  match k with KValue _ => "Value" | KConst _ => "Const" | KFunc _ => "Function" | KOrder => "StateOrder" | KCF => "ControlFlow" end.
+Lemma kclass_kname : forall k, kclass (Some k) = Some (kname k).
+Proof. destruct k; reflexivity. Qed.
+Definition edge_kinds_covered_b : bool :=
+  seteq_b String.eqb (map kname [KValue 0; KConst 0; KFunc 0; KOrder; KCF]%N) rs_edge_kinds &&
+  nodupb String.eqb rs_edge_kinds &&
+  forallb (fun s => smem s rs_edge_kinds) (rs_static_kinds ++ rs_unconnected_ok_kinds ++ rs_linear_out_extra_kinds).
+Lemma edge_kinds_covered : edge_kinds_covered_b = true.
+Proof. vm_compute. reflexivity. Qed.
+(* the port kinds of Validity.v are the variants of enum EdgeKind; EdgeKind::is_static (validate_edge) and the
+   ControlFlow test (validate_port's outgoing_is_linear, cf_succs, r_cfg_edges) select the same kinds *)
+Theorem edge_kinds_match : forall k,
+  In (kname k) rs_edge_kinds /\
+  is_static k = smem (kname k) rs_static_kinds /\
+  is_cf k = smem (kname k) rs_linear_out_extra_kinds.
+Proof. intros k. destruct k; vm_compute; repeat split; auto 10. Qed.
+
+(* validate_port: an incoming port must be linked unless its kind is StateOrder or ControlFlow (or the node is a Case,
+   which has no port: tag_tests_match).  r_inputs_once of Validity.v demands a link exactly for the offsets below
+   base_in: these are the same ports, for every operation and offset. *)
+Lemma static_in_kind : forall o k, static_in o = Some k -> smem (kname k) rs_unconnected_ok_kinds = false.
+Proof. intros o k H. destruct o; try discriminate H; injection H as <-; reflexivity. Qed.
+Lemma other_in_kind : forall o k, fst (other_in o) = Some k -> smem (kname k) rs_unconnected_ok_kinds = true.
+Proof. intros o k H. destruct o; cbn in H; try discriminate H; injection H as <-; reflexivity. Qed.
+Theorem inputs_must_connect_matches : forall o off k,
+  kind_in o off = Some k ->
+  (off <? base_in o)%N = negb (smem (kname k) rs_unconnected_ok_kinds).
+Proof.
+  intros o off k H. unfold kind_in in H. unfold base_in.
+  destruct (off <? lenN (val_in o))%N eqn:E1.
+  - destruct (nthN (val_in o) off) as [t|]; [|discriminate H]. injection H as <-. cbn [kname].
+    apply N.ltb_lt in E1. replace (smem "Value" rs_unconnected_ok_kinds) with false by reflexivity.
+    apply N.ltb_lt. lia.
+  - apply N.ltb_ge in E1. destruct (is_some (static_in o)) eqn:E2; cbn [andb b2N] in *.
+    + destruct (off =? lenN (val_in o))%N eqn:E3.
+      * rewrite (static_in_kind _ _ H). apply N.eqb_eq in E3. apply N.ltb_lt. lia.
+      * apply N.eqb_neq in E3. destruct (off <? count_in o)%N; [|discriminate H].
+        rewrite (other_in_kind _ _ H). apply N.ltb_ge. lia.
+    + destruct (off <? count_in o)%N; [|discriminate H].
+      rewrite (other_in_kind _ _ H). apply N.ltb_ge. lia.
+Qed.
+
 (* ================================================================== non-vacuity *)
 Example ex_lattice : is_superset "DataflowChild" "FuncDefn" = true /\ is_superset "DataflowChild" "Function" = false /\
                      is_superset "DataflowParent" "Case" = true /\ Sup "Any" "DataflowBlock".
